@@ -145,14 +145,20 @@ func (x *c10Gen) op() {
 		}
 	case 2: // retention boundary, any order incl. regressions
 		var through uint64
-		switch g.R.Pick(4, 3, 2, 1) {
+		switch g.R.Pick(4, 3, 2, 1, 3) {
+		case 4: // strictly below the boundary adopted so far (regression), often committed and checkpointed
+			if sh.local > 1 {
+				through = 1 + uint64(g.R.Intn(int(sh.local-1)))
+			} else {
+				through = 1
+			}
 		case 0:
 			through = 1 + uint64(g.R.Intn(int(min(sh.ckhw, sh.leo))+1))
 		case 1:
 			through = x.near(sh.local)
 		case 2:
 			through = x.near(sh.leo)
-		default:
+		case 3:
 			through = sh.leo + uint64(g.R.Range(1, 4))
 			g.Count("retain:beyond-leo")
 		}
@@ -161,6 +167,9 @@ func (x *c10Gen) op() {
 		}
 		if through < sh.local {
 			g.Count("retain:regressing-boundary")
+		}
+		if through > min(sh.ckhw, sh.leo) {
+			g.Count("retain:above-checkpoint")
 		}
 		rts := uint64(0)
 		if g.R.Chance(40) {
